@@ -56,6 +56,43 @@ func main() {
 		}
 		tabs = append(tabs, t)
 	}
+	// concurrent table creation: every table lock must get its own sequence number (the lock order of
+	// WriteTxn relies on it); duplicates would allow an ABBA deadlock
+	{
+		db2 := statedb.New()
+		var mu sync.Mutex
+		seen := map[uint64]string{}
+		dup := ""
+		var cwg sync.WaitGroup
+		for round := 0; round < 200; round++ {
+			start := make(chan struct{})
+			for g := 0; g < 8; g++ {
+				cwg.Add(1)
+				go func(round, g int) {
+					defer cwg.Done()
+					<-start
+					name := fmt.Sprintf("c%d-%d", round, g)
+					t, err := statedb.NewTable(db2, name, idIndex)
+					if err != nil {
+						return
+					}
+					sq := statedb.VerifTableSeq(t)
+					mu.Lock()
+					if other, ok := seen[sq]; ok {
+						dup = fmt.Sprintf("tables %s and %s got the same lock sequence number %d", other, name, sq)
+					}
+					seen[sq] = name
+					mu.Unlock()
+				}(round, g)
+			}
+			close(start)
+			cwg.Wait()
+		}
+		if dup != "" {
+			fmt.Println("racer: DUPLICATE LOCK SEQUENCE:", dup)
+			os.Exit(67)
+		}
+	}
 	db.Start()
 	defer db.Stop()
 	var stop atomic.Bool
